@@ -84,9 +84,9 @@ mutant('C05', 'to-inplace-forgets-unit', UN, """            self.__value = targe
             return self""", 'C05.to', nth=5)
 mutant('C05', 'to-inplace-returns-copy-kind', UN, "return Torque(value=target_value, unit=target_unit)", "return Force(value=target_value, unit='N')", 'C05.to')
 mutant('C05', 'to-copy-mutates', UN, """        else:
-            return Length(value=target_value, unit=target_unit)""", """        else:
+            return Force(value=target_value, unit=target_unit)""", """        else:
             self.__value = target_value
-            return Length(value=target_value, unit=target_unit)""", 'C05.to')
+            return Force(value=target_value, unit=target_unit)""", 'C05.to')
 mutant('C05', 'angle-to-stale-copy', UN, """        if inplace:
             self.__value = converted.value
             self.__unit = converted.unit
